@@ -93,6 +93,9 @@ pub struct HistStats {
     pub events_checked: u64,
     pub event_kinds: BTreeSet<&'static str>,
     pub max_events_one_sub: u64,
+    /// events received by client subscriptions (the catch-all observer not counted)
+    pub sub_events: u64,
+    pub sub_event_kinds: BTreeSet<&'static str>,
     pub unique_suppressed: u64,
     pub snapshots: u64,
     pub ls_changes: BTreeMap<(Cid, u64), u64>,
@@ -168,6 +171,18 @@ pub async fn base_config() -> Config {
     config
 }
 
+static BASE_CONFIG: std::sync::OnceLock<Config> = std::sync::OnceLock::new();
+
+/// must be called once (outside of any runtime) before checks run
+pub fn init_base_config() {
+    let cfg = crate::util::block_on(base_config());
+    BASE_CONFIG.set(cfg).ok();
+}
+
+pub fn base_config_cached() -> Config {
+    BASE_CONFIG.get().expect("init_base_config was called").clone()
+}
+
 fn sorted(mut v: Vec<String>) -> Vec<String> {
     v.sort();
     v
@@ -175,7 +190,7 @@ fn sorted(mut v: Vec<String>) -> Vec<String> {
 
 impl<'a> Interp<'a> {
     pub async fn new(o: &'a Opts, kfs: &'a KnownFindings, prop: &'a str) -> Interp<'a> {
-        let wb = Worterbuch::with_config(base_config().await);
+        let wb = Worterbuch::with_config(base_config_cached());
         Interp {
             wb,
             m: World::new(),
@@ -319,9 +334,20 @@ impl<'a> Interp<'a> {
                 Op::Disconnect(_) => "disconnect",
                 other => other.kind(),
             };
+            let shape = match op {
+                Op::PDelete { pattern, .. } => {
+                    if pattern.starts_with("?/") || pattern.starts_with("#") || pattern == "?" {
+                        "wildcard in the first segment"
+                    } else {
+                        "literal first segment"
+                    }
+                }
+                Op::Disconnect(_) => "grave goods / last will applied at session end",
+                _ => "any key",
+            };
             let f = self
                 .fail("sys.touched", "no protected $SYS key touched by a client request", &fx.sys_touched_by_client)
-                .sig(json!({"obs": "sys.touched", "by": by}));
+                .sig(json!({"obs": "sys.touched", "by": by, "shape": shape}));
             self.known_or_fail(f)?;
         }
         if self.o.readback && (self.step % self.o.readback_every.max(1) == 0) {
@@ -508,6 +534,38 @@ impl<'a> Interp<'a> {
             }
             Op::ISet { key, value } => {
                 return self.do_set(INTERNAL, key, value, fx).await;
+            }
+            Op::Reset { c, idx } => {
+                // write the value a key already has (plain set for plain values, cset with the
+                // current version for CAS values): a value-preserving write by construction
+                let Some(id) = self.pick_client(*c) else { return Ok(Flow::Continue) };
+                *actor = Some(id);
+                let keys: Vec<(String, Entry)> = self
+                    .m
+                    .data
+                    .iter()
+                    .filter(|(k, _)| k[0] != SYS)
+                    .map(|(k, e)| (join(k), e.clone()))
+                    .collect();
+                if keys.is_empty() {
+                    self.stats.skipped_ops += 1;
+                    return Ok(Flow::Continue);
+                }
+                let (key, entry) = keys[map_idx(*idx, keys.len())].clone();
+                match entry.cas {
+                    None => return self.do_set(id, &key, &entry.value, fx).await,
+                    Some(v) => {
+                        if v == u64::MAX {
+                            return Ok(Flow::Continue);
+                        }
+                        let res = self.wb.cset(key.clone(), entry.value.clone(), v, uuid(id), false).await;
+                        if let Err(e) = res {
+                            return Err(self.fail("verdict.cset", "Ok (current version)", err_code(&e)));
+                        }
+                        self.stats.accepted_writes += 1;
+                        self.m.apply_cset(&key, entry.value.clone(), v, id, fx);
+                    }
+                }
             }
             Op::CSet { c, key, value, ver } => {
                 let Some(id) = self.pick_client(*c) else { return Ok(Flow::Continue) };
@@ -1101,6 +1159,19 @@ impl<'a> Interp<'a> {
             *self.stats.excluded.entry("ill_typed_registration").or_default() += 1;
             return Ok(Flow::Continue);
         }
+        if own_reg && id != INTERNAL && key.ends_with("/lastWill") {
+            // a last will aimed at the leaving client's own $SYS entries: the statement does not say
+            // whether clean-up or last will wins; not generated
+            let own_prefix = format!("$SYS/clients/{}/", client_name(id));
+            let targets_own = value
+                .as_array()
+                .map(|a| a.iter().any(|e| e.get("key").and_then(|k| k.as_str()).map(|k| k.starts_with(&own_prefix)).unwrap_or(false)))
+                .unwrap_or(false);
+            if targets_own {
+                *self.stats.excluded.entry("last_will_targets_own_sys_entry").or_default() += 1;
+                return Ok(Flow::Continue);
+            }
+        }
         self.note_key(key);
         let res = self.wb.set(key.to_owned(), value.clone(), uuid(id), false).await;
         if !key.is_empty() && !self.m.key_writable(key, id) {
@@ -1275,7 +1346,13 @@ impl<'a> Interp<'a> {
                     self.stats.event_kinds.insert(if x.2 { "deleted" } else { "value" });
                 }
             }
-            self.stats.max_events_one_sub = self.stats.max_events_one_sub.max(act.len() as u64);
+            if s.0 != OBSERVER {
+                self.stats.max_events_one_sub = self.stats.max_events_one_sub.max(act.len() as u64);
+                self.stats.sub_events += act.len() as u64;
+                for x in &act {
+                    self.stats.sub_event_kinds.insert(if x.2 { "deleted" } else { "value" });
+                }
+            }
         }
         self.stats.unique_suppressed += fx.unique_suppressed;
         Ok(Flow::Continue)
@@ -1456,7 +1533,7 @@ impl<'a> Interp<'a> {
                 let fl = self
                     .fail("fold", format!("sub {s:?}: pget = {exp:?}"), format!("snapshot+events = {:?}", f.state))
                     .sig(if only_prefix {
-                        json!({"obs":"fold","shape":"prefix/# vs key == prefix"})
+                        json!({"obs":"fold","shape":"prefix/# vs key == prefix: pget and pdelete match, the subscriber is not notified"})
                     } else {
                         json!({"obs":"fold"})
                     });
